@@ -1027,7 +1027,12 @@ def main(run):
                  "getter/setter directives, value/pointer embedding of earlier shoot structs to depth 3, generics, name forms "
                  "lower/camel/snake/acronym/ALLCAPS/exported) with explicit json tags on ~20%% of the single-name fields; the "
                  "first two packages are a fixed corpus (two-letter humps under camel; an outer type needing JSON code only "
-                 "for promoted fields), the next 3 (thorough 10) embed a write-only shoot type; "
+                 "for promoted fields), the next 3 (thorough 10) embed a write-only shoot type; the LAST 9 packages are the "
+                 "fifth-bank fixed corpus (appended after the generated stream, no random draw): snake names with "
+                 "acronym/ALLCAPS/camel/digit words, trailing and double underscore x the four tag cases, own and promoted "
+                 "(+ one leading-underscore package outside the guard), and k = 2..3 embedded structs (by value / by pointer, "
+                 "depth 1 / 2) all carrying an exported field ID with an own field ID before / between / after them (own "
+                 "exported fields hiding promoted ones are inside the correspondence guard, outside the theorems' guard); "
                  "`shoot new [-getset on 85%%] -json -tagcase=<uniform over pascal|camel|lower|upper> -type=<all or all but "
                  "one, declaration order>`.  Per selected struct: MarshalJSON/UnmarshalJSON declared?, the shadow struct's "
                  "fields (name, type, tag), json.Marshal(NewT(sentinels)) members in order with raw JSON values (the same value "
@@ -1048,6 +1053,8 @@ def main(run):
         "leaves_compared": leaves_total, "leaves_with_v_eq_w": v_eq_w,
         "feature_counts": feat,
         "generator": gstats,
+        "fifth_bank_corpus_verdicts": {p["name"]: verdicts.get(i, 0) for i, p in enumerate(pkgs)
+                                       if p["name"][0] in "sd" and not p["name"].startswith("j")},
         "l1_transfer_calls": ncalls, "l1_directive_calls": dcalls, "l1_skipped": probe is None,
         "findings_measured": outcome,
         "exhaustive": False,
@@ -1075,6 +1082,9 @@ ASSUMPTIONS = c03.ASSUMPTIONS + [
     "member names distinct under case folding, embedded shoot structs are generated before the struct (complete view), and "
     "the struct needs JSON code itself (K_json_promoted_marshaler: otherwise an embedded type's MarshalJSON is promoted)",
     "Unmarshal is observed on values whose embedded pointers are allocated (NewT); the zero value panics (K_json_nil_embed)",
+    "the correspondence guard (guard_js) admits one class the theorems' c11_guard excludes: an EXPORTED own field declared "
+    "after an embedded struct that carries a field of its name (own_names_fresh concerns accessor fields only); these "
+    "structs are judged by Pb and compared with the model, C11_key_names / C11_round_trip do not cover them",
 ]
 
 
